@@ -365,7 +365,7 @@ LIB_THEOREMS = {
     'C03': ['AlgR.R_field', 'AlgR.Rlit32_1', 'AlgR.Rlit64_m2'],
     'C10': ['AlgR.Rlit32_2', 'AlgR.R_cos_opp'],
     'C05': ['QuatAlg.rot_compose', 'QuatAlg.conj_hprod', 'QuatAlg.rot_neg', 'AlgR.Rlit64_1', 'FromMatAlg.from_mat_branch_x', 'FromMatAlg.from_mat_branch_y', 'FromMatAlg.from_mat_branch_z', 'FromMatAlg.from_mat_branch_w', 'FromMatAlg.cond_x', 'FromMatAlg.cond_w'],
-    'C12': ['InterpAlg.lerp_at_0', 'InterpAlg.lerp_at_1', 'InterpAlg.lerp_between', 'InterpAlg.u1_orth_input', 'InterpAlg.u2_orth_input'],
+    'C12': ['InterpAlg.lerp_at_0', 'InterpAlg.lerp_at_1', 'InterpAlg.lerp_between', 'InterpAlg.u1_orth_input', 'InterpAlg.u2_orth_input', 'InterpAlg.any_orth_1', 'InterpAlg.any_orth_2'],
     'C18': ['Sem.IntStd_IEEE', 'Sem.LitStd_IEEE'], 'C08': ['Sem.IntStd_IEEE', 'Sem.LitStd_IEEE'], 'C15': ['Sem.IntStd_IEEE'], 'C20': ['Erase.erase_check_sound', 'UnitAlg.normalize_unit3', 'UnitAlg.normalize_unit4', 'UnitAlg.axis_angle_unit_trig', 'UnitAlg.single_axis_unit', 'UnitAlg.hprod_unit', 'UnitAlg.conj_unit', 'UnitAlg.qmat_cols_unit', 'UnitAlg.qmat_cols_orth'], 'C01': ['Sem.IntStd_IEEE', 'Sem.LitStd_IEEE', 'FloatTricks.floor_lane_correct', 'FloatTricks.ceil_lane_correct', 'FloatTricks.trunc_lane_correct', 'FloatTricks.round_lane_correct', 'FloatTricks.abs_lane_correct', 'FloatTricks.neg_lane_correct', 'FloatTricks.copysign_lane_correct', 'FloatTricks.signum_lane_correct', 'FloatTricks.finite_lane_correct', 'FloatTricks.not_sign_std', 'FloatTricks.rem_floored_refuted'],
 }
 def lib_assumptions(pid):
